@@ -101,6 +101,9 @@ class CHECK(Check):
         import hashlib, json
         return int(hashlib.sha1(json.dumps(case, sort_keys=True).encode()).hexdigest(), 16)
 
+    def comparable(self, case):
+        return not case.get("oracle_only")
+
     def entry_of(self, case):
         return "FIELD" if case["t"] == "buf" else "LINE"
 
@@ -120,6 +123,14 @@ class CHECK(Check):
         n = 4000 if tier == "quick" else 120000
         for _ in range(n):
             fs = gen_bin_layout(rng)
+            if rng.random() < 0.04:
+                # date formats with textual directives (month / weekday names: variable width) are outside the model's format
+                # language; such lines are judged by the reference oracle only
+                f = rng.choice(["%d %B %Y", "%A %d/%m/%Y", "%b-%d-%Y %H:%M"])
+                fd = {"k": "date", "size": 24, "start": 4, "formats": [f], "textual": True}
+                d = [rng.choice([1999, 2024]), rng.randint(1, 12), rng.randint(1, 28), rng.choice([0, 13]) if "%H" in f else 0, rng.choice([0, 59]) if "%M" in f else 0, 0, 0]
+                yield {"t": "line", "fields": [{"k": "int", "size": 4, "start": 0}, fd], "values": [["int", rng.randint(-9, 9)], ["date", d]], "oracle_only": True}
+                continue
             case = {"t": "line", "fields": fs, "values": [gen_bin_value(rng, fd) for fd in fs]}
             if len(fs) > 1 and rng.random() < 0.2:
                 # fewer values than fields: the remaining fields are written as missing values, the record keeps its width
